@@ -1,0 +1,27 @@
+//go:build verif
+
+package git
+
+import (
+	"github.com/go-git/go-billy/v6"
+
+	"github.com/go-git/go-git/v6/internal/pathutil"
+)
+
+// VerifValidPath exposes worktreeFilesystem.validPath to the verification harness.
+func VerifValidPath(protectNTFS, protectHFS bool, paths ...string) error {
+	return newWorktreeFilesystem(nil, protectNTFS, protectHFS).validPath(paths...)
+}
+
+// VerifValidSymlinkName exposes worktreeFilesystem.validSymlinkName.
+func VerifValidSymlinkName(protectNTFS, protectHFS bool, name string) error {
+	return newWorktreeFilesystem(nil, protectNTFS, protectHFS).validSymlinkName(name)
+}
+
+// VerifValidTreePath exposes internal/pathutil.ValidTreePath.
+func VerifValidTreePath(p string) error { return pathutil.ValidTreePath(p) }
+
+// VerifWorktreeFilesystem wraps fs in the validating worktree filesystem.
+func VerifWorktreeFilesystem(fs billy.Filesystem, protectNTFS, protectHFS bool) billy.Filesystem {
+	return newWorktreeFilesystem(fs, protectNTFS, protectHFS)
+}
